@@ -264,6 +264,16 @@ func c13FileCases(c *core.Check) []c13File {
 	add("yaml-cr-in-comment", "openapi.yaml", c19Specs["s0"]+"# a\rb\n")
 	add("yaml-bom", "openapi.yaml", "\ufeff"+c19Specs["s0"])
 	add("yaml-nbsp-utf8", "openapi.yaml", c19Specs["s0"]+"# café ☃ \U0001F600\n")
+	// long contents on the quoted path (one line, or a carriage return somewhere) that are dense in multi-byte
+	// characters, at three byte alignments: whatever chunking or wrapping an encoder applies meets a character boundary
+	// question at every offset
+	dense := strings.Repeat("日本語の説明テキスト、café ☃ \U0001F600 Привет мир ", 260) // about 17 KB
+	for shift := 0; shift < 3; shift++ {
+		pad := strings.Repeat("x", shift)
+		add(fmt.Sprintf("json-oneline-long-utf8+%d", shift), "openapi.json",
+			`{"openapi":"3.0.3","info":{"version":"1","title":"t`+pad+`","description":"`+dense+`"},"paths":{"/a":{"get":{"responses":{"200":{"description":"ok"}}}}}}`)
+		add(fmt.Sprintf("yaml-cr-long-utf8+%d", shift), "openapi.yaml", c19Specs["s0"]+"# "+pad+"a\rb "+dense+"\n# "+dense+"\n")
+	}
 	// fixture and example specs of the repository, as they are and with CRLF line ends
 	var paths []string
 	for _, pat := range []string{core.RepoDir() + "/tests/*/openapi.yaml", core.RepoDir() + "/examples/*/openapi.yaml"} {
